@@ -16,9 +16,16 @@ pub(crate) const AFTER_CACHE_BUCKET_CLEAR: &str = "after_cache_bucket_clear";
 #[cfg(test)]
 pub(crate) const TTL_AFTER_EXPIRED_SAMPLE: &str = "ttl_after_expired_sample";
 
+#[cfg(not(feoxdb_verif))]
 #[cfg(not(test))]
 #[inline(always)]
 pub(crate) fn pause_at(_: &'static str) {}
+
+#[cfg(all(feoxdb_verif, not(test)))]
+#[inline]
+pub(crate) fn pause_at(point: &'static str) {
+    crate::verif::yield_point(point);
+}
 
 #[cfg(test)]
 #[inline]
@@ -44,10 +51,17 @@ pub(crate) fn new_fault_scope() -> usize {
 
 /// True when a test has armed `point` for this store. The caller that must fail
 /// is usually a flusher whose `ThreadId` the test cannot name.
+#[cfg(not(feoxdb_verif))]
 #[cfg(not(test))]
 #[inline(always)]
 pub(crate) fn fail_at(_: &'static str, _: usize) -> bool {
     false
+}
+
+#[cfg(all(feoxdb_verif, not(test)))]
+#[inline]
+pub(crate) fn fail_at(point: &'static str, _: usize) -> bool {
+    crate::verif::fail_at(point)
 }
 
 #[cfg(test)]
